@@ -195,8 +195,11 @@ LinePy(r) ==
     [] r.op = "pminpoly" -> IsP(r.c, PMinPolySeq(r.s))
     [] OTHER -> FALSE
 
+\* a call that did not return ("hang") or stopped on an assertion ("abort") has no result at all
+Returned(r) == ~("hang" \in DOMAIN r) /\ ~("abort" \in DOMAIN r)
 LineOk(r) ==
-  CASE r.fam = "zz"   -> LineZZ(r)
+  CASE ~Returned(r)   -> FALSE
+    [] r.fam = "zz"   -> LineZZ(r)
     [] r.fam = "ww"   -> LineWW(r)
     [] r.fam = "pp"   -> LinePP(r)
     [] r.fam = "word" -> LineWord(r)
